@@ -30,7 +30,7 @@ ASSUMPTIONS = []
 MIN = {'c25.store_updates': 1500, 'c25.pool_tasks_checked': 6000,
        'c25.mirror_comparisons': 2000, 'c25.elements_compared': 50000,
        'c25.checksums_compared': 2000}
-NCASES = {'quick': 200, 'thorough': 3000}
+NCASES = {'quick': 800, 'thorough': 10000}
 
 
 def ncases(tier):
